@@ -46,7 +46,37 @@ RefVector(s, r, m, j) ==     \* j-th legal pad length
     SaNew("R", s, keys),
     UnprotectStep("C06", "R", ~r, w, IF j % 2 = 0 THEN "nil" ELSE "pre", AcceptExp(m)) >>)
 
-NVariants == 9 + 16
+\* ---- authentic datagrams whose INSIDE is unusual (C04: unprotection never crashes; C13: skipping / rejecting inside SK; C10: pad octet)
+InnerBase == Msg(2, << Rep("IDi"), Rep("N"), Rep("V") >>)
+InnerCase(j) ==        \* [first, plain]: first inner type and the plaintext (a block multiple)
+  LET ch == PlainChain(NormChain(InnerBase.payloads))
+      enc(ps) == EncChainW(ps)
+      raw == enc(ch) IN
+  CASE j = 1 -> [first |-> FirstOf(InsertUnk(ch, 1, 200, 0, 0, << 1, 2, 3 >>)), plain |-> Padded(enc(InsertUnk(ch, 1, 200, 0, 0, << 1, 2, 3 >>))), cls |-> "accept"]
+    [] j = 2 -> [first |-> FirstOf(ch), plain |-> Padded(enc(InsertUnk(ch, 2, 1, 0, 127, << >>))), cls |-> "accept"]
+    [] j = 3 -> [first |-> FirstOf(ch), plain |-> Padded(enc(InsertUnk(ch, 4, 49, 0, 0, Zeros(40)))), cls |-> "accept"]
+    [] j = 4 -> [first |-> FirstOf(InsertUnk(ch, 1, 200, 1, 0, << 1 >>)), plain |-> Padded(enc(InsertUnk(ch, 1, 200, 1, 0, << 1 >>))), cls |-> "reject"]
+    [] j = 5 -> [first |-> FirstOf(ch), plain |-> Padded(enc(InsertUnk(ch, 3, 255, 1, 0, << >>))), cls |-> "reject"]
+    [] j = 6 -> [first |-> FirstOf(ch), plain |-> Padded(Take(raw, Len(raw) - 3)), cls |-> "free"]
+    [] j = 7 -> [first |-> FirstOf(ch), plain |-> Padded(Overwrite(raw, 3, << 0, 3 >>)), cls |-> "free"]
+    [] j = 8 -> [first |-> FirstOf(ch), plain |-> Padded(Overwrite(raw, 3, << 255, 255 >>)), cls |-> "free"]
+    [] j = 9 -> [first |-> 33, plain |-> Padded(Zeros(7)), cls |-> "free"]
+    [] j = 10 -> [first |-> 0, plain |-> Padded(raw), cls |-> "free"]                                     \* chain announced as empty but octets follow
+    [] j = 11 -> [first |-> 46, plain |-> Padded(raw), cls |-> "free"]                                    \* an Encrypted payload inside
+    [] j = 12 -> [first |-> FirstOf(ch), plain |-> Padded(<< >>), cls |-> "free"]                            \* announces payloads, carries none
+    [] OTHER -> LET v == (j - 13) * 17 % 256 IN                                                           \* arbitrary pad-length octets on 32 octets of plaintext
+                [first |-> 40, plain |-> << 0, 0, 0, 20 >> \o D(27, j) \o << v >>, cls |-> IF v + 1 > 32 THEN "reject" ELSE "free"]
+NInner == 12 + 16
+InnerVector(s, r, j) ==
+  LET c == InnerCase(j) keys == KeysOf(s, 1)
+      w == RefProtectRaw(InnerBase, c.first, c.plain, s, keys, r, PadFill(j, 16)) IN
+  Vector("sk_inner", <<
+    SaNew("R", s, keys),
+    UnprotectCaps(IF j <= 5 THEN "C13" ELSE "C04", "R", ~r, w, IF j % 2 = 0 THEN "nil" ELSE "pre",
+                  CASE c.cls = "accept" -> AcceptExp(InnerBase) [] c.cls = "reject" -> [panic |-> FALSE, capdiff |-> FALSE, err |-> TRUE]
+                    [] OTHER -> [panic |-> FALSE, capdiff |-> FALSE]) >>)
+
+NVariants == 9 + 16 + NInner
 Init == stage = 0 /\ su = 0 /\ role = TRUE /\ mi = 0 /\ variant = 0
 Next ==
   \/ stage = 0 /\ stage' = 1 /\ su' \in 1..9 /\ role' \in BOOLEAN /\ UNCHANGED << mi, variant >>
@@ -57,13 +87,16 @@ Next ==
                          \/ Thorough
                          \/ (v <= 8 /\ (v + mi + su) % 4 = 0)
                          \/ (v = 9 /\ su = 1)
-                         \/ (v >= 10 /\ mi <= 6 /\ (v + mi + su) % 4 = 0) }
-     /\ (variant' >= 10 => Len(EncChain(NormChain(M(mi).payloads))) < 4000)
+                         \/ (v >= 10 /\ v <= 25 /\ mi <= 6 /\ (v + mi + su) % 4 = 0)
+                         \/ (v > 25 /\ mi = 1 /\ (v + su) % 3 = 0) }
+     /\ (variant' > 25 => mi = 1)
+     /\ (variant' >= 10 /\ variant' <= 25 => Len(EncChain(NormChain(M(mi).payloads))) < 4000)
   \/ stage = 3 /\ UNCHANGED << stage, su, role, mi, variant >>
 
 Vec == IF variant <= 8 THEN RoundTripVector(SuiteSeq[su], role, M(mi), variant)
        ELSE IF variant = 9 THEN FallbackVector(M(mi))
-       ELSE RefVector(SuiteSeq[su], role, M(mi), variant - 9)
+       ELSE IF variant <= 25 THEN RefVector(SuiteSeq[su], role, M(mi), variant - 9)
+       ELSE InnerVector(SuiteSeq[su], role, variant - 25)
 Emit == stage = 3 => PrintT(ToJson(Vec))
 Sound == stage = 3 => Encodable(M(mi)) /\ FitsProtected(M(mi), SuiteSeq[su])
 =============================================================================
